@@ -22,6 +22,9 @@ CLAIMED = {
  'C30': ('M', 'symbolic execution of the MIR of the private TokenBucket (new, try_consume+refill, reset_after, remaining) into Z3 (IEEE-754 theory) from an arbitrary valid bucket state under a symbolic monotone clock; one inductive step per method; native replay through RateLimiter::check under an interposed virtual clock',
          'Solver-decided one-step obligations for every burst 0..20, rate 0..50, every bucket state satisfying the invariant and every later instant: no panic, invariant 0<=tokens<=burst preserved, last_update=now, tokens\' = min(tokens+elapsed*rate, burst) minus one exactly when admitted, admitted iff a whole token is available; reset_after/remaining never panic and return a finite Duration (rate 0 included). The interval bound admitted <= burst + rate*T follows by the induction stated in props/c30.py.',
          'Claimed for one client\'s bucket ("while that client is tracked"). Outside: the per-IP map, eviction and the async RateLimiter::check wrapper (tokio RwLock + std HashMap), interleaved clients. Trusted: MIR dump + executor, models of Instant/Duration (listed in evidence), Z3 FP theory; the multi-step bound is an induction over the discharged step obligations, up to one rounding per operation.', 'DESIGN.md §4 C30'),
+ 'C07': ('M', 'symbolic execution of the MIR of UniqueTable::get_or_create, ZddArena::gc / remap_to_new_table and both ZDD iterators on a bounded concrete unique table with symbolic contents (Vec + hash-index models) into Z3, plus bounded model-side lemmas (canonicity, decomposition) linking the table to the family abstraction of C06; native probes for replay',
+         'Solver-decided on every table of <= 3-4 symbolic nodes satisfying the representation invariant: get_or_create zero-suppresses, returns the existing id for an existing triple, otherwise appends exactly one indexed node and preserves the invariant; gc remap rebuilds a reduced, ordered, duplicate-free and fully indexed table whose refs denote the same families, gc empties every cache and installs the new table; both iterators, driven to exhaustion from any root, emit strictly ascending vectors, no set twice, and exactly the denoted family. Lemmas (<= 6 nodes, 4-5 variables): distinct ids denote distinct non-terminal families (same family => same root) and (var, lo, hi) is the decomposition at the smallest variable.',
+         'Trusted: MIR dump + executor, container models, the hash-index model (get finds an id iff that id stores the triple; inserts are recorded and checked against the stored nodes), Z3. Outside: SharedArena locking, tables above the bounds (the C06 step obligations hold for all families over <= 5-6 variables given this invariant).', 'DESIGN.md §4 C07'),
  'C12': ('M', 'symbolic execution of the MIR of CountWindow / TumblingWindow / SessionWindow add_shared, advance_watermark and flush_shared (ColumnarBuffer inlined, VecDeque/Vec/iterator models with closures executed from MIR) into Z3; one inductive step from an arbitrary valid window state with the buffer length enumerated; bounded differential native replay',
          'Solver-decided step obligations for every buffer of 0..3 (quick) / 0..5 (thorough) symbolic events, every count 1..K+1, every duration/gap/timestamp in range: emitted ++ buffer == old buffer ++ [event] in arrival order (nothing lost or duplicated), a count window closes with exactly its size, tumbling windows hold only events earlier than first event + duration (ties at exactly start+duration close), session gaps within `gap` (gap exactly equal stays), watermark closes exactly at the documented condition; window invariants are preserved, so the step covers histories of any length.',
          'Trusted: MIR dumps (both printers), executor, container models (vlib/containers.py), chrono time arithmetic as 64-bit nanoseconds. Outside: Partitioned* wrappers, checkpoint/restore, flush_columnar, zero-length tumbling windows, engine/pipeline plumbing; time conditions are claimed for in-order arrivals (with ties), partition obligations for any order.', 'DESIGN.md §4 C12/C13'),
